@@ -1539,6 +1539,9 @@ impl CanonicalizeContext {
 			if !(leaf_text == "arc" || leaf_text == "arc " || leaf_text == "arc " /* non-breaking space */ ) {
 				return None;
 			}
+			if ELEMENTS_WITH_FIXED_NUMBER_OF_CHILDREN.contains(name(&get_parent(leaf))) {
+				return None;		// can't remove the following sibling
+			}
 
 			let following_siblings = leaf.following_siblings();
 			if following_siblings.is_empty() {
@@ -1574,6 +1577,9 @@ impl CanonicalizeContext {
 				return Some(leaf);
 			} else if leaf_text != "|" {
 				return None;
+			}
+			if ELEMENTS_WITH_FIXED_NUMBER_OF_CHILDREN.contains(name(&get_parent(leaf))) {
+				return None;		// can't remove the following sibling
 			}
 			let following_siblings = leaf.following_siblings();
 			if following_siblings.is_empty() {
